@@ -147,7 +147,9 @@ Definition s_not_early : Prop :=
       the due instant races the timer: allowed either way.) *)
 Definition superseded_inside (v : Z) : bool :=
   match batch_key v with
-  | Some k => existsb (fun b => (v <? fst b) && (snd b =? k) && (time_after (fst b) <? due v)) batches
+  | Some k => let dv := due v in
+              existsb (fun b => if (v <? fst b) && (snd b =? k) then time_after (fst b) <? dv
+                                else false) batches
   | None => false
   end.
 Definition o_suppress : bool :=
@@ -226,9 +228,13 @@ Definition s_no_wedge : Prop :=
       those values, in due order (values with equal due instants: in any order). *)
 Definition fires_at (r : Z) (b : Z * Z) : bool :=
   let v := fst b in
-  (v <? r) && (due v <=? time_after r) && (time_after (r - 1) <? due v)
-  && negb (existsb (fun b' => (v <? fst b') && (fst b' <? r) && (snd b' =? snd b)) batches)
-  && negb (before close_step r).
+  if v <? r then
+    let dv := due v in
+    if (dv <=? time_after r) && (time_after (r - 1) <? dv) then
+      negb (existsb (fun b' => (v <? fst b') && (fst b' <? r) && (snd b' =? snd b)) batches)
+      && negb (before close_step r)
+    else false
+  else false.
 
 Fixpoint insert_by (f : Z -> Z) (x : Z) (l : list Z) : list Z :=
   match l with
@@ -247,16 +253,23 @@ Definition same_delivery (got want : list Z) : bool :=
   if has_tie want then eqb_lz (sort_by (fun x => x) got) (sort_by (fun x => x) want)
   else eqb_lz got want.
 
-Definition safe_upto (r : Z) : bool := forallb (fun r' => negb (r' <=? r) || negb (may_block r')) steps.
+(* the first step at which back-pressure is possible (the script's length if there is none) *)
+Definition block_from : Z := match find may_block steps with Some r => r | None => nsteps end.
 Definition o_complete : bool :=
-  forallb (fun e => let i := fst e in let p := fst (snd e) in
-     negb (snd (snd e)) ||
-     forallb (fun r => negb ((p <? r) && safe_upto r && negb (before (cancel_step i) r))
-                       || same_delivery (recv_at i r) (expected_at r)) steps) isubs.
+  forallb (fun r =>
+     if r <? block_from then
+       let want := expected_at r in
+       forallb (fun e => let i := fst e in let p := fst (snd e) in
+          if snd (snd e) && (p <? r) && negb (before (cancel_step i) r)
+          then same_delivery (recv_at i r) want else true) isubs
+     else true) steps.
 Definition s_complete : Prop :=
   forall i p, In (i, (p, true)) isubs ->
-    forall r, In r steps -> p < r -> safe_upto r = true -> before (cancel_step i) r = false ->
+    forall r, In r steps -> p < r -> r < block_from -> before (cancel_step i) r = false ->
       same_delivery (recv_at i r) (expected_at r) = true.
+(* what [block_from] is: no step before it admits back-pressure *)
+Definition s_block_from : Prop :=
+  forall r, In r steps -> r < block_from -> may_block r = false.
 
 (* 7. "after Close returns nothing more is sent and every subscriber channel has been closed":
       nothing is received after the step at which Close was seen to return; every subscriber
@@ -269,8 +282,8 @@ Definition o_close : bool :=
       match done_step c with
       | None => true
       | Some d =>
-          forallb (fun e => match snd e with ERecv _ _ => fst e <=? d | _ => true end) ob
-          && forallb (fun e => let i := fst e in let p := fst (snd e) in
+          forallb (fun e : Z * oev => match snd e with ERecv _ _ => fst e <=? d | _ => true end) ob
+          && forallb (fun e : Z * (Z * bool) => let i := fst e in let p := fst (snd e) in
                negb (match done_step p with Some q => q <? c | None => false end) ||
                match (if snd (snd e) then Some p else readall_step i) with
                | None => true
